@@ -104,3 +104,10 @@ package ws
 
 //@ func NewWebsocketConnection(conn, remoteSki) [C02]
 //@   ensures result != nil && result.conn == conn && result.remoteSki == remoteSki
+
+// ======================= lock discipline (C20) =======================
+//@ guarded WebsocketConnection.connectionClosed, WebsocketConnection.connectionClosedError by WebsocketConnection.muxConnClosed
+//@ initonly WebsocketConnection.shipWriteChannel, WebsocketConnection.closeChannel in run
+//@ initonly WebsocketConnection.dataProcessing in InitDataProcessing
+// gorilla/websocket allows one concurrent writer: every write on the socket is serialised by muxConWrite
+//@ guardedcall (*websocket.Conn).WriteMessage, (*websocket.Conn).SetWriteDeadline by WebsocketConnection.muxConWrite
